@@ -163,9 +163,10 @@ with assign_s (fuel : nat) (e : env) (a : passign) {struct fuel} : M expr :=
         args' <- mapM re args ;;
         ret (ECall fn' (extra' :: args') sp)
     | AAccess a' i sp =>
-        (* `n.x` where n names an imported namespace of this file (the namespace table is consulted
-           first, exactly as in the code: DESIGN section 7 row 20) *)
-        ns <- lift (fun st => namespace_list st (sp_file sp) a') ;;
+        (* `n.x` where n names an imported namespace of this file -- unless the root of the chain is a
+           declaration in scope: a local shadows a namespace of the same name *)
+        ns <- lift (fun st => if root_on_stack (with_env st e) a' then Ok None
+                              else namespace_list st (sp_file sp) a') ;;
         match ns with
         | Some ns =>
             o <- lift (fun st => lookup_global st ns (i_name i)) ;;
